@@ -26,7 +26,8 @@ RULE = ("case = (configuration, steering history, storage mode, stop s, composit
         "restart saw a listing that is not in ascending order (distinct (case, listing orders) are counted)")
 ASSUMPTIONS = ["N <= 3 (quick) / 4 (thorough) iterations; restarts happen at iteration boundaries (as in the statement)",
                "restart_iteration=-1 (default) for the chains; explicit restart_iteration=k (every k < N, every length) after a finished run; the same calculators and grid are passed to every segment",
-               "the directory listing is modelled as an arbitrary permutation of the existing files (glob.glob makes no order promise)"]
+               "the directory listing is modelled as an arbitrary permutation of the existing files (glob.glob makes no order promise); "
+               "file modification times are either untouched or follow the listing order (a copy/restore that does not preserve times)"]
 
 TOL = 1e-10
 
@@ -81,7 +82,18 @@ class GlobSeam:
         costs = [sum(1 for i, p in enumerate(perm) if p != i) for perm in perms]   # 0 for the sorted order
         c = self.chooser.choose(len(perms), costs=costs, label=f"listing({n} files)")
         self.orders.append(list(perms[c]))
-        return [files[i] for i in perms[c]]
+        listed = [files[i] for i in perms[c]]
+        # second environment answer: has the directory been copied / restored without preserving times?  Then the
+        # modification times follow the order in which the copy created the files (= the listing order), not the
+        # order in which run() wrote them.  (default: times untouched)
+        if n > 1:
+            t = self.chooser.choose(2, costs=[0, 1], label="mtimes(untouched|follow listing)")
+            if t == 1:
+                base = os.path.getmtime(files[0])
+                for pos, f in enumerate(listed):
+                    os.utime(f, (base + 10.0 * pos, base + 10.0 * pos))
+                self.orders[-1] = self.orders[-1] + ["mtimes_follow_listing"]
+        return listed
 
     def __getattr__(self, name):
         return getattr(_glob, name)
@@ -233,7 +245,7 @@ def run_case(case, seed):
         gen = sched.explore(lambda ch: execute(case, seed, ch), bound=None)
     for choices, cost, (bad, orders), trace in gen:
         nexec += 1
-        unsorted = any((o != sorted(o)) for o in orders if o and isinstance(o[0], int)) or any(c != 0 for c in choices)
+        unsorted = any(c != 0 for c in choices)
         if "intermediate" in case:
             unsorted = False
             nontrivial.append(repr((case["cfg"]["sys"], case["cfg"]["N"], case["cfg"]["pick"], case["mode"], "restart_iteration", case["intermediate"], case["m"])))
